@@ -12,9 +12,13 @@ import subprocess
 import time
 
 
-def fuzz(binary, seconds, workers=16, corpus=(), max_len=65536, dictionary=None, timeout=60, rss_mb=4096, **kw):
+def fuzz(binary, seconds, workers=16, corpus=(), max_len=65536, dictionary=None, timeout=60, rss_mb=4096, max_seed_size=None, max_seeds=None, random_seeds=0, random_seed_len=768, **kw):
+    """corpus: directories of seed files (sampled deterministically down to max_seeds, files above max_seed_size skipped);
+    random_seeds: number of pseudo-random byte strings (a pure function of VERIF_SEED) added as seeds - for tape-decoded
+    targets, whose interesting inputs are long tapes that libFuzzer would otherwise take long to grow from nothing."""
     d = {"kind": "custom", "name": "%s:libfuzzer" % binary, "binary": binary, "fn": run_fuzz, "seconds": seconds, "workers": workers,
-         "corpus": list(corpus), "max_len": max_len, "dict": dictionary, "timeout": timeout, "rss_mb": rss_mb}
+         "corpus": list(corpus), "max_len": max_len, "dict": dictionary, "timeout": timeout, "rss_mb": rss_mb,
+         "max_seed_size": max_seed_size, "max_seeds": max_seeds, "random_seeds": random_seeds, "random_seed_len": random_seed_len}
     d.update(kw)
     return d
 
@@ -28,13 +32,30 @@ def run_fuzz(r, st):
     seeds = os.path.join(r.run_dir, "seeds-" + st["binary"])
     os.makedirs(seeds, exist_ok=True)
     n_seed = 0
+    candidates = []
     for c in st["corpus"]:
         c = c.replace("$REPO", repo).replace("$VERIF", here)
         for root, _, files in os.walk(c):
             for f in sorted(files):
-                p = os.path.join(root, f)
+                candidates.append(os.path.join(root, f))
+    limit = st.get("max_seed_size") or (st["max_len"] - 1)
+    candidates = [p for p in candidates if os.path.isfile(p) and os.path.getsize(p) <= limit]
+    if st.get("max_seeds") and len(candidates) > st["max_seeds"]:
+        # deterministic sample: order by a hash of (VERIF_SEED, path)
+        candidates.sort(key=lambda p: hashlib.sha1(("%d:%s" % (r.seed, p)).encode()).hexdigest())
+        candidates = sorted(candidates[: st["max_seeds"]])
+    if st.get("random_seeds"):
+        import random
+        rng = random.Random(r.seed * 7919 + 13)
+        for i in range(st["random_seeds"]):
+            data = bytes(rng.getrandbits(8) for _ in range(st["random_seed_len"]))
+            open(os.path.join(seeds, "rnd-%04d" % i), "wb").write(data)
+            n_seed += 1
+    for c in [None]:
+        for root, _, files in [(None, None, candidates)]:
+            for p in files:
                 try:
-                    if os.path.getsize(p) <= st["max_len"] - 1:
+                    if True:
                         data = open(p, "rb").read()
                         if st.get("prefix_config_byte"):
                             for cfg in st["prefix_config_byte"]:
